@@ -693,6 +693,18 @@ impl Hist {
 	/// sender's) — so that confirmations of non-coinbase outputs in BOTH accounts occur often.
 	fn pay_episode(&mut self) {
 		let sender = self.p.below(2) as usize;
+		if self.p.coin() {
+			// two payments to the same wallet, first into its lowest account, then into the second:
+			// the second account's entry then carries a log id the lowest account already uses
+			self.pay_episode_to(sender, Some(0));
+			self.pay_episode_to(sender, Some(1));
+		} else {
+			let dest = Some(self.p.below(2));
+			self.pay_episode_to(sender, dest);
+		}
+	}
+
+	fn pay_episode_to(&mut self, sender: usize, dest: Option<u64>) {
 		let before = self.flights.len();
 		self.init_send(sender);
 		if self.flights.len() == before {
@@ -702,7 +714,6 @@ impl Hist {
 		let s1 = self.flights[f].s1.clone();
 		let num = self.flights[f].num;
 		let r_i = 1 - sender;
-		let dest: Option<u64> = Some(self.p.below(2));
 		let dest_name = dest.and_then(acct_name);
 		let r = guarded(|| self.s.with(r_i, |b, m| foreign::receive_tx(b, m, &s1, dest_name, false)));
 		let rc = rc_of(&r);
@@ -884,16 +895,19 @@ impl Hist {
 
 	fn step(&mut self) {
 		let i = self.p.below(2) as usize;
-		let roll = self.p.below(100);
 		let (w_init, w_cancel, w_cbkey) = match self.profile.as_str() {
 			"c05" => (12, 22, 1),
 			"c07" => (10, 6, 10),
 			"c18" => (12, 3, 0),
+			"c04" => (10, 4, 1),
 			_ => (14, 8, 2),
 		};
 		let w_fork = if self.profile == "c18" { 6 } else { 0 };
 		let w_episode = if self.profile == "c18" { 8 } else { 0 };
-		let w_pay = 6;
+		let w_pay = if self.profile == "c04" { 14 } else { 6 };
+		// the bands below plus a tail of 4 (reopen or nothing)
+		let total = 14 + 12 + 3 + w_init + 14 + 14 + 12 + 8 + w_cancel + w_cbkey + w_fork + w_episode + w_pay + 4;
+		let roll = self.p.below(total);
 		let mut acc = 0;
 		let mut in_band = |w: u64| {
 			let lo = acc;
@@ -941,8 +955,11 @@ impl Hist {
 			self.reorg_episode();
 		} else if in_band(w_pay) {
 			self.pay_episode();
-		} else if self.p.chance(1, 3) {
+		} else if self.p.chance(1, 2) {
+			// closing and opening the wallet forgets the active account (it is not persisted):
+			// for the model a reopen is a switch to the default account
 			self.s.reopen(i);
+			self.record(i, json!({"k": "set_active", "a": 0}), vec![0], json!({"reopen": true}));
 		}
 	}
 }
@@ -982,7 +999,7 @@ fn main() {
 		// half of the histories also to the second account of each wallet (so that per-account
 		// log ids coincide across accounts)
 		let warm = hist.p.range(2, 4);
-		let both_accounts = hist.p.coin();
+		let both_accounts = hist.p.coin() || profile == "c04";
 		for a in 0..(if both_accounts { 2 } else { 1 }) {
 			for i in 0..2 {
 				if both_accounts {
